@@ -127,10 +127,18 @@ def model_re(pattern):
     return deco
 
 
+def _short_trait(tr):
+    """std::ops::FromResidual<X> -> FromResidual<X>"""
+    i = tr.find('<')
+    head = tr if i < 0 else tr[:i]
+    tail = '' if i < 0 else tr[i:]
+    return head.split('::')[-1] + tail
+
+
 def parse_callee(callee):
-    """split `<T as Trait<..>>::method::<G>` / `Type::<G>::method::<H>` into parts"""
+    """split `<T as Trait<..>>::method::<G>` / `Type::<G>::method::<H>` into
+    (self_ty, trait, method, norm, full).  `norm` is the key library models match on."""
     self_ty = trait = None
-    generics = []
     s = callee
     if s.startswith('<'):
         j = match_close(s, 0)
@@ -140,24 +148,30 @@ def parse_callee(callee):
         k = find_top(inner, ' as ')
         if k >= 0:
             self_ty = inner[:k].strip()
-            trait = inner[k + 4:].strip()
+            trait = _short_trait(inner[k + 4:].strip())
         else:
             self_ty = inner.strip()
         method = strip_generics(rest).lstrip(':')
-        norm = '<%s as %s>::%s' % (self_ty, strip_generics(trait) if trait else '', method) if trait else '<%s>::%s' % (self_ty, method)
-        return self_ty, trait, method, norm
-    norm = strip_generics(s)
-    segs = norm.split('::')
+        if trait:
+            norm = '<%s as %s>::%s' % (self_ty, strip_generics(trait), method)
+        else:
+            norm = '<%s>::%s' % (self_ty, method)
+        return self_ty, trait, method, norm, norm
+    full = strip_generics(s)
+    segs = full.split('::')
     method = segs[-1]
     self_ty = '::'.join(segs[:-1]) if len(segs) > 1 else None
-    return self_ty, None, method, norm
+    norm = full
+    if len(segs) >= 3 and segs[-2][:1].isupper():
+        norm = segs[-2] + '::' + segs[-1]
+    return self_ty, None, method, norm, full
 
 
 class Interp:
     def __init__(self, prog, decisions, stats, opts=None):
         self.prog = prog
         self.opts = opts or {}
-        self.ctx = smt.SolverCtx(stats, timeout_ms=self.opts.get('fork_timeout_ms', 10000), seed=self.opts.get('seed', 0))
+        self.ctx = smt.SolverCtx(stats, timeout_ms=self.opts.get('fork_timeout_ms', 1500), seed=self.opts.get('seed', 0))
         self.decisions = list(decisions)
         self.pos = 0
         self.alternatives = []
@@ -171,6 +185,7 @@ class Interp:
         self.steps = 0
         self.max_steps = self.opts.get('max_steps', 2000000)
         self.notes = []
+        self.hint_eqs = None
         self.L = layouts()
 
     # ------------------------------------------------------------ forking
@@ -183,14 +198,20 @@ class Interp:
             self.pos += 1
             self.ctx.add(cond if d else z3.Not(cond))
             return d
-        rt = self.ctx.check(cond)
+        dd = self.ctx.decide(cond)
+        if dd is not None:
+            self.decisions.append(dd)
+            self.pos += 1
+            self.ctx.add(cond if dd else z3.Not(cond))
+            return dd
+        rt = self._feasible(cond)
         if rt == 'unsat':
             d = False
             self.decisions.append(False)
             self.pos += 1
             self.ctx.add(z3.Not(cond))
             return False
-        rf = self.ctx.check(z3.Not(cond))
+        rf = self._feasible(z3.Not(cond))
         if rf == 'unsat':
             self.decisions.append(True)
             self.pos += 1
@@ -201,6 +222,20 @@ class Interp:
         self.pos += 1
         self.ctx.add(cond)
         return True
+
+    def _feasible(self, cond):
+        """'sat' | 'unsat' | 'unknown'; tries the obligation's hint assignment first (cheap witness)"""
+        h = self.hint_eqs
+        if h is not None:
+            if self.ctx.check(z3.And(cond, h)) == 'sat':
+                self.stats['hint_sat'] = self.stats.get('hint_sat', 0) + 1
+                return 'sat'
+        return self.ctx.check(cond)
+
+    def set_hint(self, values):
+        """concrete witness values for (some) inputs, used only to speed up feasibility queries"""
+        eqs = [z3.Int(k) == v if not isinstance(v, bool) else (z3.Bool(k) if v else z3.Not(z3.Bool(k))) for k, v in values.items()]
+        self.hint_eqs = z3.And(*eqs) if eqs else None
 
     def choose(self, n, label=''):
         """nondeterministic choice among n alternatives (all explored)"""
@@ -227,6 +262,7 @@ class Interp:
         v = z3.Int(name)
         if bits is not None:
             hi = (1 << bits) - 1
+        self.ctx.set_bounds(v, lo, hi)
         if lo is not None:
             self.ctx.add(v >= lo)
         if hi is not None:
@@ -235,6 +271,7 @@ class Interp:
 
     def fresh_tmp(self, base, lo=0, hi=None):
         v = self.ctx.fresh(base)
+        self.ctx.set_bounds(v, lo, hi)
         if lo is not None:
             self.ctx.add(v >= lo)
         if hi is not None:
@@ -418,6 +455,9 @@ class Interp:
             raise Unsupported('float constant ' + txt)
         if txt.startswith('{alloc'):
             raise Unsupported('alloc constant ' + txt[:60])
+        ec = external_const(txt)
+        if ec is not None:
+            return ec
         # named item
         crate = fr.fn.src if fr else None
         key = (crate, txt)
@@ -461,7 +501,7 @@ class Interp:
             return self.unop(rv[1], a)
         if kind == 'discr':
             v = self.read(fr, rv[1])
-            return self.discriminant(v, self.place_type(fr.fn, rv[1]))
+            return self.discriminant(v, self.place_type(fr.fn, rv[1]), fr.fn.src)
         if kind == 'cast':
             v = self.operand(fr, rv[1])
             return self.cast(fr, v, rv[1], rv[2], rv[3])
@@ -503,33 +543,34 @@ class Interp:
         if names and names[0] is None:
             names = None
         name = last_seg(path)
+        crate = fr.fn.src
         dty = self.place_type(fr.fn, dest) if dest is not None else None
         # enum variant?
         segs = strip_generics(path).split('::')
-        ety = None
+        ekey = None
         if dty is not None:
-            vs = self.L.enum_variants(dty)
-            if vs is not None and any(n == name for n, _ in vs):
-                ety = type_base(dty)
-        if ety is None and len(segs) >= 2:
+            k = self.L._resolve(dty, 'enum', crate)
+            if k is not None and any(n == name for n, _ in self.L.enums[k]):
+                ekey = k
+        if ekey is None and len(segs) >= 2:
             parent = '::'.join(segs[:-1])
-            vs = self.L.enum_variants(parent)
-            if vs is not None and any(n == name for n, _ in vs):
-                ety = parent
-        if ety is not None:
+            k = self.L._resolve(parent, 'enum', crate)
+            if k is not None and any(n == name for n, _ in self.L.enums[k]):
+                ekey = k
+        if ekey is not None:
             if names is None:
-                vs = self.L.enum_variants(ety)
-                for n, fn_ in vs:
+                for n, fn_ in self.L.enums[ekey]:
                     if n == name and fn_ and not fn_[0].isdigit() and len(fn_) == len(vals):
                         names = fn_
-            return En(ety, name, vals, names)
-        if names is None:
-            sf = self.L.struct_fields(dty or path)
+            return En(qual(ekey), name, vals, names)
+        skey = self.L._resolve(dty or path, 'struct', crate)
+        if names is None and skey is not None:
+            sf = self.L.structs[skey]
             if sf and len(sf) == len(vals):
                 names = sf
-        return St(type_base(dty) if dty else strip_generics(path), vals, names)
+        return St(skey[2] if skey else (type_base(dty).split('::')[-1] if dty else last_seg(path)), vals, names)
 
-    def discriminant(self, v, ty):
+    def discriminant(self, v, ty, crate=None):
         if isinstance(v, Ref):
             v = v.get()
         if isinstance(v, bool):
@@ -538,7 +579,7 @@ class Interp:
             raise Unsupported('discriminant of %r' % (type(v).__name__,))
         for t in (v.ty, ty):
             if t:
-                i = self.L.variant_index(t, v.var)
+                i = self.L.variant_index(t, v.var, crate)
                 if i is not None:
                     return i
         raise Unsupported('unknown variant index %s::%s (%s)' % (v.ty, v.var, ty))
@@ -652,7 +693,7 @@ class Interp:
             if isinstance(v, z3.BoolRef):
                 return z3.If(v, 1, 0)
             if isinstance(v, En):      # C-like enum to int
-                return self.discriminant(v, sty)
+                return self.discriminant(v, sty, fr.fn.src)
             if tb is None:
                 raise Unsupported('IntToInt to ' + ty)
             if ty.startswith('i') or (sty or '').startswith('i'):
@@ -802,11 +843,13 @@ class Interp:
 
     # ------------------------------------------------------------ call dispatch
     def call_callee(self, callee, args, caller, dest_ty=None):
-        self_ty, trait, method, norm = parse_callee(callee)
+        self_ty, trait, method, norm, full = parse_callee(callee)
         crate = caller.src if caller else None
         # 1. a function defined in a dumped crate (exact, generics stripped)
         if not callee.startswith('<'):
-            f = self.prog.lookup_exact(norm, crate)
+            f = self.prog.lookup_exact(full, crate)
+            if f is None and full != norm:
+                f = self.prog.lookup_exact(norm, crate)
             if f is not None and f.kind == 'fn':
                 return self.call_fn(f, args)
         c = CallCtx()
@@ -876,6 +919,47 @@ class Interp:
         if isinstance(f, FnItem):
             return self.call_callee(f.name, list(args), None)
         raise Unsupported('call of non-function value %r' % (f,))
+
+
+_EXT = {
+    'DECIMAL_PLACES': 18,
+    'DECIMAL_FRACTIONAL': 10 ** 18,
+}
+
+
+def external_const(txt):
+    """associated constants of library types that appear by name in MIR"""
+    t = strip_generics(txt)
+    segs = t.split('::')
+    name = segs[-1]
+    owner = segs[-2] if len(segs) > 1 else ''
+    if owner in ('Decimal', 'Decimal256') and name in _EXT:
+        return _EXT[name]
+    if name == 'MAX':
+        if owner in NEWTYPE_BITS:
+            return (1 << NEWTYPE_BITS[owner]) - 1
+        if owner in INT_BITS and owner.startswith('u'):
+            return (1 << INT_BITS[owner]) - 1
+        if owner in INT_BITS:
+            return (1 << (INT_BITS[owner] - 1)) - 1
+    if name == 'MIN' and (owner in NEWTYPE_BITS or (owner in INT_BITS and owner.startswith('u'))):
+        return 0
+    if name == 'MAX' and owner in ('Decimal', 'Decimal256'):
+        return (1 << NEWTYPE_BITS[owner]) - 1
+    m = re.match(r'^core::num::<impl ([iu](?:\d+|size))>::(MAX|MIN)$', txt)
+    if m:
+        b = INT_BITS[m.group(1)]
+        if m.group(1).startswith('u'):
+            return (1 << b) - 1 if m.group(2) == 'MAX' else 0
+        return (1 << (b - 1)) - 1 if m.group(2) == 'MAX' else -(1 << (b - 1))
+    return None
+
+
+def qual(key):
+    """short type name for builtin enums, crate-qualified for the rest"""
+    if key[0] in ('core', 'alloc'):
+        return key[2]
+    return '::'.join([key[0]] + [x for x in key[1].split('::') if x] + [key[2]])
 
 
 def deref_type(ty):
